@@ -1,4 +1,5 @@
 //! nbverif: pure executor. Reads cases on stdin, writes one observation line per case.
+mod dim;
 mod list;
 
 fn main() {
@@ -10,6 +11,8 @@ fn main() {
     // keep panic messages out of stderr noise; harness functions use catch_unwind
     std::panic::set_hook(Box::new(|_| {}));
     match args[1].as_str() {
+        "dim" => dim::main(),
+        "dim-env" => dim::main_env(),
         "list" => list::main(),
         other => {
             eprintln!("unknown subcommand {other}");
